@@ -28,7 +28,9 @@ use mithril_common::entities::{
     ProtocolParameters, SignedEntityType, SignedEntityTypeDiscriminants as D, SingleSignature,
     SlotNumber, StakeDistribution, TimePoint,
 };
+use mithril_common::messages::{RegisterSignatureMessageHttp, SignedEntityTypeMessage};
 use mithril_common::protocol::ToMessage;
+use mithril_aggregator::services::{FakeSignatureConsumer, SequentialSignatureProcessor, SignatureProcessor};
 use mithril_common::test::builder::{
     MithrilFixture, MithrilFixtureBuilder, StakeDistributionGenerationMethod,
 };
@@ -162,7 +164,7 @@ enum Ev {
     SkipEpoch,
     NewImm,
     Reg(u64),
-    Sig { party: u64, set: Vec<u64>, signed: Ent, idxs: Vec<u64>, for_: Ent },
+    Sig { party: u64, set: Vec<u64>, signed: Ent, idxs: Vec<u64>, for_: Ent, dmq: bool },
     Expire(Ent),
     Restart,
     Crash(Cut),
@@ -175,12 +177,13 @@ impl Ev {
             Ev::SkipEpoch => "SkipEpoch".into(),
             Ev::NewImm => "NewImm".into(),
             Ev::Reg(p) => format!("Reg {}", coq::n(*p)),
-            Ev::Sig { party, set, signed, idxs, for_ } => format!(
-                "Sig {{| sg_party := {}; sg_set := {}; sg_signed := {}; sg_idxs := {} |}} {}",
+            Ev::Sig { party, set, signed, idxs, for_, dmq } => format!(
+                "Sig {{| sg_party := {}; sg_set := {}; sg_signed := {}; sg_idxs := {}; sg_dmq := {} |}} {}",
                 coq::n(*party),
                 coq::list_n(set),
                 signed.coq(),
                 coq::list_n(idxs),
+                if *dmq { "true" } else { "false" },
                 for_.coq()
             ),
             Ev::Expire(x) => format!("Expire {}", x.coq()),
@@ -195,8 +198,9 @@ impl Ev {
             Ev::SkipEpoch => serde_json::json!("skip-epoch(+2)"),
             Ev::NewImm => serde_json::json!("new-immutable"),
             Ev::Reg(p) => serde_json::json!({"register": p}),
-            Ev::Sig { party, set, signed, idxs, for_ } => serde_json::json!({"signature": {
-                "party": party, "registration_set": set, "signed": signed.json(), "won_indexes": idxs, "announced_for": for_.json()}}),
+            Ev::Sig { party, set, signed, idxs, for_, dmq } => serde_json::json!({"signature": {
+                "party": party, "registration_set": set, "signed": signed.json(), "won_indexes": idxs, "announced_for": for_.json(),
+                "ingress": if *dmq { "dmq" } else { "http" }}}),
             Ev::Expire(x) => serde_json::json!({"expire": x.json()}),
             Ev::Restart => serde_json::json!("restart"),
             Ev::Crash(c) => serde_json::json!({"crash_at": c.coq()}),
@@ -340,6 +344,23 @@ fn ent_of_row(type_id: i64, beacon: &str) -> Option<Ent> {
     }
 }
 
+/// a panic inside the polled future becomes `Err(())` (an observation, not a harness crash)
+struct CatchUnwind<F>(std::pin::Pin<Box<F>>);
+impl<F: std::future::Future> std::future::Future for CatchUnwind<F> {
+    type Output = Result<F::Output, ()>;
+    fn poll(mut self: std::pin::Pin<&mut Self>, cx: &mut std::task::Context<'_>) -> std::task::Poll<Self::Output> {
+        let inner = &mut self.0;
+        match std::panic::catch_unwind(std::panic::AssertUnwindSafe(|| inner.as_mut().poll(cx))) {
+            Ok(std::task::Poll::Ready(v)) => std::task::Poll::Ready(Ok(v)),
+            Ok(std::task::Poll::Pending) => std::task::Poll::Pending,
+            Err(_) => std::task::Poll::Ready(Err(())),
+        }
+    }
+}
+fn guarded<F: std::future::Future>(f: F) -> CatchUnwind<F> {
+    CatchUnwind(Box::pin(f))
+}
+
 // ------------------------------------------------------------------ the world (one history)
 
 struct World<'a> {
@@ -353,11 +374,17 @@ struct World<'a> {
     crashes_reached: Vec<Cut>,
     /// provenance: entities whose open message passed its expiry while it was not certified
     expired: BTreeSet<Ent>,
+    /// provenance: parties whose registration the registerer accepted, by recording epoch
+    /// (the verification-key store itself may be pruned when a retention limit is configured)
+    own_regs: BTreeMap<u64, BTreeSet<u64>>,
+    /// the aggregator's own code panicked during this event (an observation: the property fails)
+    panicked: Option<String>,
 }
 
-fn base_config(dir: &PathBuf, params: &ProtocolParameters) -> ServeCommandConfiguration {
+fn base_config(dir: &PathBuf, params: &ProtocolParameters, retention: Option<usize>) -> ServeCommandConfiguration {
     ServeCommandConfiguration {
         protocol_parameters: Some(params.clone()),
+        store_retention_limit: retention,
         signed_entity_types: Some(D::CardanoDatabase.to_string()),
         data_stores_directory: dir.join("stores"),
         ..ServeCommandConfiguration::new_sample(dir.join("snap"))
@@ -365,10 +392,10 @@ fn base_config(dir: &PathBuf, params: &ProtocolParameters) -> ServeCommandConfig
 }
 
 impl<'a> World<'a> {
-    async fn new(fx: &'a Fixtures, n: u64, dir: PathBuf) -> World<'a> {
+    async fn new(fx: &'a Fixtures, n: u64, dir: PathBuf, retention: Option<usize>) -> World<'a> {
         let _ = std::fs::remove_dir_all(&dir);
         std::fs::create_dir_all(&dir).unwrap();
-        let cfg = base_config(&dir, &fx.params);
+        let cfg = base_config(&dir, &fx.params, retention);
         let db = dir.join("stores").join("aggregator.sqlite3");
         let mut tester = RuntimeTester::build(
             TimePoint {
@@ -387,7 +414,15 @@ impl<'a> World<'a> {
         let genesis_fixture = fx.sub(&all);
         tester.init_state_from_fixture(genesis_fixture).await.unwrap();
         tester.register_genesis_certificate(genesis_fixture).await.unwrap();
-        World { tester, cfg, db, fx, n, sent: HashMap::new(), crashes_reached: vec![], expired: BTreeSet::new() }
+        // the digester double starts with a placeholder Merkle tree: bring it to the state the tester keeps
+        // for the current time point, so that a database open message created before any signature was
+        // generated commits to the same message the signers compute (found by the thorough tier)
+        tester.update_digester_digest().await;
+        tester.update_digester_merkle_tree().await;
+        let mut own_regs: BTreeMap<u64, BTreeSet<u64>> = BTreeMap::new();
+        own_regs.insert(0, all.iter().copied().collect());
+        own_regs.insert(1, all.iter().copied().collect());
+        World { tester, cfg, db, fx, n, sent: HashMap::new(), crashes_reached: vec![], expired: BTreeSet::new(), own_regs, panicked: None }
     }
 
     async fn wait_artifacts(&self) {
@@ -426,6 +461,10 @@ impl<'a> World<'a> {
         Some((msg, ep))
     }
 
+    fn own_set(&self, epoch: u64) -> Vec<u64> {
+        self.own_regs.get(&epoch).map(|s| s.iter().copied().collect()).unwrap_or_default()
+    }
+
     async fn registered(&self, epoch: u64) -> Vec<u64> {
         let mut v: Vec<u64> = self
             .tester
@@ -446,13 +485,17 @@ impl<'a> World<'a> {
     async fn exec(&mut self, ev: &Ev) {
         match ev {
             Ev::Tick => {
-                let _ = self.tester.cycle().await;
+                if guarded(self.tester.cycle()).await.is_err() {
+                    self.panicked = Some("the aggregator panicked during a cycle".into());
+                }
                 self.wait_artifacts().await;
             }
             Ev::Crash(c) => {
                 let (name, occ) = c.point();
                 verif::arm(name, occ);
-                let _ = self.tester.cycle().await;
+                if guarded(self.tester.cycle()).await.is_err() {
+                    self.panicked = Some("the aggregator panicked during a cycle".into());
+                }
                 self.wait_artifacts().await;
                 if verif::reset().is_some() {
                     self.crashes_reached.push(*c);
@@ -479,7 +522,10 @@ impl<'a> World<'a> {
                     .into_iter()
                     .filter(|s| &s.signer_with_stake.party_id == pid)
                     .collect();
-                let _ = self.tester.register_signers(&sf).await;
+                let recording = self.env().await.0 + 1;
+                if self.tester.register_signers(&sf).await.is_ok() {
+                    self.own_regs.entry(recording).or_default().insert(*p);
+                }
             }
             Ev::Sig { .. } => unreachable!("signatures are executed when generated"),
             Ev::Expire(x) => {
@@ -505,16 +551,36 @@ impl<'a> World<'a> {
         }
     }
 
-    /// route handler semantics: authenticate against the signed message, then register for `for_`
-    async fn send_signature(&mut self, mut sig: SingleSignature, signed_message: &str, for_: Ent) {
-        let auth = verif::single_signature_authenticator(&self.tester.dependencies);
-        if auth.authenticate(&mut sig, signed_message).await.is_err() {
-            return;
+    /// HTTP ingress: the real `POST /register-signatures` handler (authenticates against the announced
+    /// signed message, then registers for `for_`).  DMQ ingress: the real `SequentialSignatureProcessor`
+    /// fed by a one-batch consumer (marks the signature authenticated without verification).
+    async fn send_signature(&mut self, sig: SingleSignature, signed_message: &str, for_: Ent, dmq: bool) {
+        if dmq {
+            let consumer = Arc::new(FakeSignatureConsumer::new(vec![Ok(vec![(sig, for_.real())])]));
+            let (_stop_tx, stop_rx) = tokio::sync::watch::channel(());
+            let processor = SequentialSignatureProcessor::new(
+                consumer,
+                self.tester.dependencies.certifier_service.clone(),
+                stop_rx,
+                self.tester.metrics_service.clone(),
+                Duration::from_millis(1),
+                slog::Logger::root(slog::Discard, slog::o!()),
+            );
+            if guarded(processor.process_signatures()).await.is_err() {
+                self.panicked = Some("the aggregator panicked while processing a DMQ signature".into());
+            }
+        } else {
+            let message = RegisterSignatureMessageHttp {
+                signed_entity_type: SignedEntityTypeMessage::Known(for_.real()),
+                party_id: sig.party_id.clone(),
+                signature: sig.signature.to_json_hex().unwrap(),
+                won_indexes: sig.won_indexes.clone(),
+                signed_message: signed_message.to_string(),
+            };
+            if guarded(verif::http_register_signature(&self.tester.dependencies, message)).await.is_err() {
+                self.panicked = Some("the aggregator panicked in the register-signatures handler".into());
+            }
         }
-        if !sig.is_authenticated() {
-            return;
-        }
-        let _ = self.tester.dependencies.certifier_service.register_single_signature(&for_.real(), &sig).await;
     }
 
     async fn snapshot(&self) -> Snap {
@@ -628,6 +694,37 @@ async fn judge_store(w: &World<'_>, snap: &Snap, k: u64, mode: Mode) -> Result<(
             return Err(format!("stored certificate {} (epoch {}) does not verify with its chain: {:#}", &c.hash[..12], c.epoch, e));
         }
     }
+    // (1b) fields of every multi-signature certificate: epoch = epoch of its entity and of the message it
+    // signs, protocol parameters = the parameters in force (constant over a history), the signed message
+    // is the hash of its protocol message, sealed after it was initiated
+    for c in &certs {
+        if c.is_genesis() {
+            continue;
+        }
+        let x = Ent::from_real(&c.signed_entity_type());
+        if let Some(x) = x {
+            if x.epoch != *c.epoch {
+                return Err(format!("certificate {} for {:?} carries epoch {}", &c.hash[..12], x, c.epoch));
+            }
+        }
+        let cur_ep = c.protocol_message.get_message_part(&ProtocolMessagePartKey::CurrentEpoch).cloned();
+        if cur_ep != Some(c.epoch.to_string()) {
+            return Err(format!("certificate {} of epoch {} signs a message of epoch {:?}", &c.hash[..12], c.epoch, cur_ep));
+        }
+        if c.metadata.protocol_parameters != w.fx.params {
+            return Err(format!("certificate {} carries protocol parameters {:?}, in force: {:?}", &c.hash[..12], c.metadata.protocol_parameters, w.fx.params));
+        }
+        let npp = c.protocol_message.get_message_part(&ProtocolMessagePartKey::NextProtocolParameters).cloned();
+        if npp != Some(w.fx.params.compute_hash()) {
+            return Err(format!("certificate {} signs next protocol parameters {:?}, in force: {}", &c.hash[..12], npp, w.fx.params.compute_hash()));
+        }
+        if c.signed_message != c.protocol_message.compute_hash() {
+            return Err(format!("certificate {}: signed message is not the hash of its protocol message", &c.hash[..12]));
+        }
+        if c.metadata.sealed_at < c.metadata.initiated_at {
+            return Err(format!("certificate {} sealed before it was initiated", &c.hash[..12]));
+        }
+    }
     // (2) no (type, beacon) certified twice
     let mut seen: HashMap<Ent, usize> = HashMap::new();
     for (i, c) in snap.certs.iter().enumerate() {
@@ -666,8 +763,15 @@ async fn judge_store(w: &World<'_>, snap: &Snap, k: u64, mode: Mode) -> Result<(
     // (5) keys of the epoch and quorum, from the stores and the harness's own record of what was sent
     for (i, c) in snap.certs.iter().enumerate() {
         let Some(x) = c.ent else { continue };
-        let cur = w.registered(c.epoch - 1).await;
-        let nxt = w.registered(c.epoch).await;
+        let cur = w.own_set(c.epoch - 1);
+        let nxt = w.own_set(c.epoch);
+        for (ep, own) in [(c.epoch - 1, &cur), (c.epoch, &nxt)] {
+            let stored = w.registered(ep).await;
+            // the store may have been pruned (retention limit) but never for the epochs still in use
+            if !stored.is_empty() && &stored != own {
+                return Err(format!("verification-key store holds parties {:?} for epoch {}, accepted registrations: {:?}", stored, ep, own));
+            }
+        }
         if c.set != cur {
             return Err(format!("certificate row {} carries the aggregate key of parties {:?}, registered for its epoch: {:?}", i, c.set, cur));
         }
@@ -684,6 +788,13 @@ async fn judge_store(w: &World<'_>, snap: &Snap, k: u64, mode: Mode) -> Result<(
         }
         if (union.len() as u64) < k {
             return Err(format!("certificate row {} for {:?} sealed with {} distinct won indexes from its signers, quorum is {}", i, x, union.len(), k));
+        }
+        // the signers listed by the certificate are exactly the parties whose single signatures the open
+        // message holds (nothing is added to a certified message; the row lives until the next epoch's clean-up)
+        if let Some(o) = snap.oms.iter().find(|o| o.ent == x) {
+            if o.certified && o.signers != c.signers && snap.certs.iter().filter(|d| d.ent == Some(x)).count() == 1 {
+                return Err(format!("certificate row {} for {:?} lists signers {:?}, its open message holds the signatures of {:?}", i, x, c.signers, o.signers));
+            }
         }
     }
     // (6) artifacts reference a stored certificate certifying exactly that entity; one artifact per entity
@@ -725,8 +836,61 @@ struct History {
     n_certs: usize,
 }
 
-async fn run_history(fx: &Fixtures, k: u64, n: u64, mode: Mode, len: usize, rng: &mut Rng, dir: PathBuf) -> History {
-    let mut w = World::new(fx, n, dir).await;
+/// Directed scenario run between the prefix and the random tail of a history (the sequences the
+/// property's quantifier names; each has random parameters and is followed by random events).
+#[derive(Clone, Copy, PartialEq, Eq, Debug)]
+enum Scn {
+    Random,
+    /// certify, restart in the middle of the epoch, re-send every signature (route and DMQ)
+    RestartResend,
+    /// half the signers signed, the epoch changes, the others sign, signers ahead of the aggregator sign
+    /// the next epoch's entities (buffered), the aggregator follows
+    EpochChangeSigning,
+    /// expiry before / between / after the signatures of a round that reaches the quorum
+    ExpiryRace,
+    /// signatures of the database arrive while the stake distribution is being signed (two types
+    /// interleaved, buffered, handed over, sealed from the buffer alone)
+    BufferedInterleave,
+    /// different registration sets in three consecutive epochs, signatures under the previous set
+    SignerSetChange,
+    /// three certificates in an epoch, then the first of the next epoch
+    ThreeCertsThenEpoch,
+    /// epoch skipped while certificates exist, restart while blocked
+    SkipEpochRestart,
+    /// restart with a half-finished round
+    RestartInSigning,
+    /// DMQ ingress: unauthenticated garbage (foreign set, other entity, early)
+    DmqGarbage,
+    /// C15: a crash that certainly reaches the cut, restart, re-sent signatures, later rounds
+    CutAt(Cut),
+}
+impl Scn {
+    fn name(&self) -> &'static str {
+        match self {
+            Scn::Random => "random",
+            Scn::RestartResend => "restart-resend",
+            Scn::EpochChangeSigning => "epoch-change-while-signing",
+            Scn::ExpiryRace => "expiry-race",
+            Scn::BufferedInterleave => "buffered-interleave",
+            Scn::SignerSetChange => "signer-set-change",
+            Scn::ThreeCertsThenEpoch => "three-certificates-then-epoch",
+            Scn::SkipEpochRestart => "skip-epoch-restart",
+            Scn::RestartInSigning => "restart-in-signing",
+            Scn::DmqGarbage => "dmq-garbage",
+            Scn::CutAt(Cut::OmCreated) => "crash-open-message-created",
+            Scn::CutAt(Cut::BufRegistered(_)) => "crash-buffered-signature-registered",
+            Scn::CutAt(Cut::BufRemoved) => "crash-buffered-signatures-removed",
+            Scn::CutAt(Cut::CertInserted) => "crash-certificate-inserted",
+            Scn::CutAt(Cut::OmCertified) => "crash-open-message-certified",
+            Scn::CutAt(Cut::ArtifactComputed) => "crash-artifact-computed",
+            Scn::CutAt(Cut::EntityStored) => "crash-signed-entity-stored",
+        }
+    }
+}
+
+#[allow(clippy::too_many_arguments, unused_must_use)]
+async fn run_history(fx: &Fixtures, k: u64, n: u64, mode: Mode, scn: Scn, retention: Option<usize>, len: usize, rng: &mut Rng, dir: PathBuf) -> History {
+    let mut w = World::new(fx, n, dir, retention).await;
     let mut events: Vec<Ev> = vec![];
     let mut obs: Vec<String> = vec![];
     let mut kinds: BTreeSet<&'static str> = BTreeSet::new();
@@ -740,29 +904,74 @@ async fn run_history(fx: &Fixtures, k: u64, n: u64, mode: Mode, len: usize, rng:
             let ev: Ev = $ev;
             let before = snap.certs.len();
             w.exec(&ev).await;
+            if let Some(p) = w.panicked.take() {
+                failure.get_or_insert(format!("{} (event {} of the history: {:?})", p, events.len(), ev));
+            }
             snap = w.snapshot().await;
             obs.push(snap.obs());
             if snap.certs.len() > before + 1 {
                 failure.get_or_insert(format!("{} certificates appeared in one step", snap.certs.len() - before));
             }
+            if snap.certs.len() < before {
+                failure.get_or_insert(format!("{} stored certificates disappeared in one step", before - snap.certs.len()));
+            }
+            if snap.certs.len() > before {
+                // sealed in the epoch the chain is in: a certificate is never made for a past epoch
+                let chain_epoch = w.env().await.0;
+                for c in &snap.certs[before..] {
+                    if c.epoch != chain_epoch {
+                        failure.get_or_insert(format!("a certificate of epoch {} was sealed while the chain is in epoch {}", c.epoch, chain_epoch));
+                    }
+                }
+                if !matches!(ev, Ev::Tick | Ev::Crash(_)) {
+                    failure.get_or_insert(format!("a certificate was stored by event {:?}, not by a cycle", ev));
+                }
+            }
             events.push(ev);
         }};
     }
-    // generate + send one signature; returns the won indexes when one was produced
+    // generate + send one signature; returns the won indexes when one was produced.  A signer may be
+    // one epoch ahead of the aggregator (the chain moved, the aggregator has not cycled yet): it then
+    // signs the message of the new epoch (epoch + next aggregate key of the new epoch's registrations)
     macro_rules! sign {
-        ($party:expr, $set:expr, $signed:expr, $for_:expr) => {{
-            let (party, set, signed, for_): (u64, Vec<u64>, Ent, Ent) = ($party, $set, $signed, $for_);
+        ($party:expr, $set:expr, $signed:expr, $for_:expr, $dmq:expr) => {{
+            let (party, set, signed, for_, dmq): (u64, Vec<u64>, Ent, Ent, bool) = ($party, $set, $signed, $for_, $dmq);
             let mut produced: Option<Vec<u64>> = None;
             if !set.is_empty() && set.contains(&party) {
-                if let Some((msg, ep)) = w.message_for(signed).await {
-                    if ep == signed.epoch {
+                if let Some((mut msg, ep)) = w.message_for(signed).await {
+                    let mut ok = ep == signed.epoch;
+                    if !ok && ep + 1 == signed.epoch && w.env().await.0 == signed.epoch {
+                        let nxt = w.registered(signed.epoch).await;
+                        if !nxt.is_empty() {
+                            msg.set_message_part(ProtocolMessagePartKey::CurrentEpoch, signed.epoch.to_string());
+                            msg.set_message_part(
+                                ProtocolMessagePartKey::NextAggregateVerificationKey,
+                                fx.sub(&nxt).compute_and_encode_concatenation_aggregate_verification_key(),
+                            );
+                            ok = true;
+                        }
+                    }
+                    if ok {
                         if let Some(sig) = fx.sign(party, &set, &msg) {
                             let idxs: Vec<u64> = sig.won_indexes.clone();
                             w.sent.entry((signed, set.clone())).or_default().entry(party).or_default().extend(idxs.iter().copied());
-                            w.send_signature(sig, &msg.to_message(), for_).await;
+                            w.send_signature(sig, &msg.to_message(), for_, dmq).await;
+                            if let Some(p) = w.panicked.take() {
+                                failure.get_or_insert(format!("{} (event {} of the history)", p, events.len()));
+                            }
+                            let before = snap.certs.len();
                             snap = w.snapshot().await;
+                            if snap.certs.len() != before {
+                                failure.get_or_insert("the certificate table changed when a single signature was received".to_string());
+                            }
                             obs.push(snap.obs());
-                            events.push(Ev::Sig { party, set, signed, idxs: idxs.clone(), for_ });
+                            events.push(Ev::Sig { party, set, signed, idxs: idxs.clone(), for_, dmq });
+                            if dmq {
+                                kinds.insert("signature-dmq");
+                            }
+                            if signed.epoch == ep + 1 {
+                                kinds.insert("signature-next-epoch-early");
+                            }
                             produced = Some(idxs);
                         }
                     }
@@ -771,14 +980,76 @@ async fn run_history(fx: &Fixtures, k: u64, n: u64, mode: Mode, len: usize, rng:
             produced
         }};
     }
+    // first non-certified non-expired open message among the chain's current entities
+    macro_rules! cur_target {
+        () => {{
+            let (e, i) = w.env().await;
+            [Ent::of(Ty::Msd, e, 0), Ent::of(Ty::Cdb, e, i)]
+                .into_iter()
+                .find(|x| snap.oms.iter().any(|o| o.ent == *x && !o.certified && !o.expired))
+        }};
+    }
+    // the parties registered for x's epoch sign x (part 0: all, 1: first half, 2: second half)
+    macro_rules! round {
+        ($x:expr, $part:expr, $dmq:expr) => {{
+            let x: Ent = $x;
+            let part: u32 = $part;
+            let dmq: bool = $dmq;
+            let set = w.registered(x.epoch.saturating_sub(1)).await;
+            let half = (set.len() + 1) / 2;
+            for (j, p) in set.clone().into_iter().enumerate() {
+                let take = match part {
+                    0 => true,
+                    1 => j < half,
+                    _ => j >= half,
+                };
+                if take {
+                    let _ = sign!(p, set.clone(), x, x, dmq);
+                }
+            }
+        }};
+    }
+    macro_rules! ticks_until {
+        ($label:expr, $max:expr) => {{
+            let mut left: u32 = $max;
+            while snap.label != $label && left > 0 {
+                step!(Ev::Tick);
+                left -= 1;
+            }
+            snap.label == $label
+        }};
+    }
+    // one honest round: to Signing, everyone signs the target, a cycle
+    macro_rules! certify {
+        () => {{
+            let before = snap.certs.len();
+            if ticks_until!("signing", 4) {
+                if let Some(x) = cur_target!() {
+                    round!(x, 0, false);
+                }
+                step!(Ev::Tick);
+            }
+            snap.certs.len() > before
+        }};
+    }
+    macro_rules! reg_most {
+        () => {{
+            for p in 0..n {
+                if rng.chance(5, 6) {
+                    step!(Ev::Reg(p));
+                }
+            }
+        }};
+    }
 
     // prefix: leave the genesis epoch with some registrations (mostly), or fully random
-    let scripted = rng.chance(9, 10);
+    let scripted = scn != Scn::Random || rng.chance(9, 10);
     if scripted {
         step!(Ev::Tick);
-        let everyone = rng.chance(2, 3);
+        let everyone = (scn != Scn::Random && scn != Scn::SignerSetChange) || rng.chance(2, 3);
+        let spared = if scn == Scn::SignerSetChange { rng.below(n) } else { 99 };
         for p in 0..n {
-            if everyone || rng.chance(2, 3) {
+            if p != spared && (everyone || scn == Scn::SignerSetChange || rng.chance(2, 3)) {
                 step!(Ev::Reg(p));
             }
         }
@@ -786,6 +1057,289 @@ async fn run_history(fx: &Fixtures, k: u64, n: u64, mode: Mode, len: usize, rng:
         epoch_moves += 1;
         step!(Ev::Tick);
         step!(Ev::Tick);
+    }
+
+    // directed part
+    kinds.insert(scn.name());
+    match scn {
+        Scn::Random => {}
+        Scn::RestartResend => {
+            certify!();
+            if rng.chance(2, 3) {
+                certify!();
+            }
+            let done: Vec<Ent> = snap.certs.iter().filter_map(|c| c.ent).collect();
+            kinds.insert("restart");
+            step!(Ev::Restart);
+            for _ in 0..rng.below(3) {
+                step!(Ev::Tick);
+            }
+            for x in done.clone() {
+                round!(x, 0, rng.chance(1, 3));
+            }
+            step!(Ev::Tick);
+            step!(Ev::Tick);
+            for x in done.clone() {
+                round!(x, 0, false);
+            }
+            step!(Ev::Tick);
+            step!(Ev::Tick);
+        }
+        Scn::EpochChangeSigning => {
+            if rng.coin() {
+                certify!();
+            }
+            ticks_until!("signing", 3);
+            let x = cur_target!();
+            if let Some(x) = x {
+                round!(x, 1, false);
+            }
+            // everyone but one party registers for the next epoch in time ...
+            let late = rng.below(n);
+            for p in 0..n {
+                if p != late {
+                    step!(Ev::Reg(p));
+                }
+            }
+            kinds.insert("new-epoch");
+            step!(Ev::NewEpoch);
+            epoch_moves += 1;
+            // ... the last one after the chain moved but before the aggregator followed (too late)
+            kinds.insert("register-late");
+            step!(Ev::Reg(late));
+            if let Some(x) = x {
+                round!(x, 2, false);
+            }
+            let (e2, i2) = w.env().await;
+            round!(Ent::of(Ty::Msd, e2, 0), 0, rng.chance(1, 3));
+            if rng.coin() {
+                round!(Ent::of(Ty::Cdb, e2, i2), 0, false);
+            }
+            if rng.chance(1, 3) {
+                kinds.insert("restart");
+                step!(Ev::Restart);
+            }
+            step!(Ev::Tick);
+            step!(Ev::Tick);
+            reg_most!();
+            step!(Ev::Tick);
+            step!(Ev::Tick);
+            step!(Ev::Tick);
+            certify!();
+        }
+        Scn::ExpiryRace => {
+            certify!();
+            if ticks_until!("signing", 3) {
+                if let Some(x) = cur_target!() {
+                    kinds.insert("expire");
+                    match rng.below(3) {
+                        0 => {
+                            round!(x, 0, false);
+                            step!(Ev::Expire(x));
+                            step!(Ev::Tick);
+                        }
+                        1 => {
+                            round!(x, 1, false);
+                            step!(Ev::Expire(x));
+                            round!(x, 2, false);
+                            step!(Ev::Tick);
+                        }
+                        _ => {
+                            step!(Ev::Expire(x));
+                            step!(Ev::Tick);
+                            round!(x, 0, false);
+                            step!(Ev::Tick);
+                        }
+                    }
+                    round!(x, 0, rng.coin());
+                    step!(Ev::Tick);
+                }
+            }
+            kinds.insert("new-immutable");
+            step!(Ev::NewImm);
+            certify!();
+        }
+        Scn::BufferedInterleave => {
+            ticks_until!("signing", 3);
+            let (e, i) = w.env().await;
+            round!(Ent::of(Ty::Cdb, e, i), 0, rng.chance(1, 3));
+            if rng.coin() {
+                kinds.insert("signature-early");
+                round!(Ent::of(Ty::Cdb, e, i + 1), 1, false);
+            }
+            if let Some(x) = cur_target!() {
+                round!(x, 0, false);
+            }
+            step!(Ev::Tick);
+            step!(Ev::Tick);
+            step!(Ev::Tick);
+            kinds.insert("new-immutable");
+            step!(Ev::NewImm);
+            step!(Ev::Tick);
+            step!(Ev::Tick);
+            certify!();
+        }
+        Scn::SignerSetChange => {
+            // epoch 2: current = everyone, next = everyone but one
+            certify!();
+            let old = w.registered(w.env().await.0 - 1).await;
+            let spared = rng.below(n);
+            for p in 0..n {
+                if p != spared {
+                    step!(Ev::Reg(p));
+                }
+            }
+            kinds.insert("new-epoch");
+            step!(Ev::NewEpoch);
+            epoch_moves += 1;
+            step!(Ev::Tick);
+            step!(Ev::Tick);
+            reg_most!();
+            if ticks_until!("signing", 3) {
+                if let Some(x) = cur_target!() {
+                    // signatures made under the previous epoch's set
+                    kinds.insert("signature-foreign-set");
+                    for p in old.clone() {
+                        let _ = sign!(p, old.clone(), x, x, rng.chance(1, 4));
+                    }
+                }
+            }
+            certify!();
+            certify!();
+            kinds.insert("new-epoch");
+            step!(Ev::NewEpoch);
+            epoch_moves += 1;
+            step!(Ev::Tick);
+            step!(Ev::Tick);
+            reg_most!();
+            certify!();
+        }
+        Scn::ThreeCertsThenEpoch => {
+            certify!();
+            certify!();
+            kinds.insert("new-immutable");
+            step!(Ev::NewImm);
+            certify!();
+            reg_most!();
+            kinds.insert("new-epoch");
+            step!(Ev::NewEpoch);
+            epoch_moves += 1;
+            step!(Ev::Tick);
+            step!(Ev::Tick);
+            reg_most!();
+            certify!();
+            certify!();
+        }
+        Scn::SkipEpochRestart => {
+            certify!();
+            reg_most!();
+            kinds.insert("skip-epoch");
+            step!(Ev::SkipEpoch);
+            epoch_moves += 2;
+            step!(Ev::Tick);
+            step!(Ev::Tick);
+            kinds.insert("restart");
+            step!(Ev::Restart);
+            step!(Ev::Tick);
+            step!(Ev::Tick);
+            reg_most!();
+            kinds.insert("new-epoch");
+            step!(Ev::NewEpoch);
+            epoch_moves += 1;
+            step!(Ev::Tick);
+            step!(Ev::Tick);
+            step!(Ev::Tick);
+        }
+        Scn::RestartInSigning => {
+            if rng.coin() {
+                certify!();
+            }
+            ticks_until!("signing", 3);
+            let x = cur_target!();
+            if let Some(x) = x {
+                round!(x, 1, false);
+            }
+            kinds.insert("restart");
+            step!(Ev::Restart);
+            for _ in 0..rng.below(4) {
+                step!(Ev::Tick);
+            }
+            if let Some(x) = x {
+                round!(x, 2, rng.chance(1, 3));
+            }
+            step!(Ev::Tick);
+            step!(Ev::Tick);
+            step!(Ev::Tick);
+            certify!();
+        }
+        Scn::DmqGarbage => {
+            ticks_until!("signing", 3);
+            let (e, i) = w.env().await;
+            let cur = w.registered(e - 1).await;
+            if !cur.is_empty() {
+                let p = cur[rng.below(cur.len() as u64) as usize];
+                let alone = vec![p];
+                let tgt = cur_target!().unwrap_or(Ent::of(Ty::Msd, e, 0));
+                kinds.insert("signature-foreign-set");
+                let _ = sign!(p, alone.clone(), tgt, tgt, true); // stored open message, set not in force
+                kinds.insert("signature-mismatch");
+                let _ = sign!(p, cur.clone(), Ent::of(Ty::Msd, e, 0), Ent::of(Ty::Cdb, e, i), true); // other entity: buffered unchecked
+                let q = cur[rng.below(cur.len() as u64) as usize];
+                let _ = sign!(q, vec![q], Ent::of(Ty::Cdb, e, i), Ent::of(Ty::Cdb, e, i), true); // buffered garbage
+                let _ = sign!(q, vec![q], Ent::of(Ty::Cdb, e, i), Ent::of(Ty::Cdb, e, i), false); // same through the route: dropped
+                kinds.insert("signature-early");
+                let r = cur[rng.below(cur.len() as u64) as usize];
+                let _ = sign!(r, cur.clone(), Ent::of(Ty::Cdb, e, i + 1), Ent::of(Ty::Cdb, e, i + 1), true);
+            }
+            certify!();
+            certify!();
+            kinds.insert("new-immutable");
+            step!(Ev::NewImm);
+            certify!();
+        }
+        Scn::CutAt(cut) => {
+            kinds.insert("crash");
+            match cut {
+                Cut::OmCreated => {
+                    if rng.coin() {
+                        certify!();
+                    }
+                    ticks_until!("ready", 3);
+                    step!(Ev::Crash(cut));
+                }
+                Cut::BufRegistered(_) | Cut::BufRemoved => {
+                    ticks_until!("signing", 3);
+                    let (e, i) = w.env().await;
+                    round!(Ent::of(Ty::Cdb, e, i), 0, rng.chance(1, 3));
+                    if let Some(x) = cur_target!() {
+                        round!(x, 0, false);
+                    }
+                    step!(Ev::Tick);
+                    step!(Ev::Crash(cut));
+                }
+                _ => {
+                    if rng.coin() {
+                        certify!();
+                    }
+                    ticks_until!("signing", 3);
+                    if let Some(x) = cur_target!() {
+                        round!(x, 0, false);
+                    }
+                    step!(Ev::Crash(cut));
+                }
+            }
+            // recovery: cycles, every signature of the epoch re-sent, further rounds
+            for _ in 0..rng.range(1, 3) {
+                step!(Ev::Tick);
+            }
+            let (e, i) = w.env().await;
+            for x in [Ent::of(Ty::Msd, e, 0), Ent::of(Ty::Cdb, e, i)] {
+                round!(x, 0, rng.chance(1, 4));
+            }
+            step!(Ev::Tick);
+            step!(Ev::Tick);
+            certify!();
+        }
     }
 
     while events.len() < len {
@@ -802,8 +1356,9 @@ async fn run_history(fx: &Fixtures, k: u64, n: u64, mode: Mode, len: usize, rng:
                 let cur = w.registered(ep - 1).await;
                 let x = Ent { epoch: ep, ..target.unwrap() };
                 kinds.insert("signatures-round");
+                let dmq = rng.chance(1, 6);
                 for p in cur.clone() {
-                    let _ = sign!(p, cur.clone(), x, x);
+                    let _ = sign!(p, cur.clone(), x, x, dmq);
                 }
             }
             step!(Ev::Tick);
@@ -818,6 +1373,16 @@ async fn run_history(fx: &Fixtures, k: u64, n: u64, mode: Mode, len: usize, rng:
                 epoch_moves += 1;
                 kinds.insert("new-epoch");
                 step!(Ev::NewEpoch);
+                if rng.chance(1, 3) {
+                    // signers ahead of the aggregator: the new epoch's entities signed under the new epoch's set
+                    let (e2, i2) = w.env().await;
+                    let x = if rng.chance(2, 3) { Ent::of(Ty::Msd, e2, 0) } else { Ent::of(Ty::Cdb, e2, i2) };
+                    round!(x, if rng.coin() { 0 } else { 1 }, rng.chance(1, 4));
+                }
+                if rng.chance(1, 8) {
+                    kinds.insert("restart");
+                    step!(Ev::Restart);
+                }
                 if rng.chance(3, 4) {
                     step!(Ev::Tick);
                     step!(Ev::Tick);
@@ -860,6 +1425,7 @@ async fn run_history(fx: &Fixtures, k: u64, n: u64, mode: Mode, len: usize, rng:
             let cur = w.registered(ep - 1).await;
             let nxt = w.registered(ep).await;
             let style = rng.below(100);
+            let dmq = rng.chance(1, 5);
             if style < 45 {
                 // every (or most) current signer signs the current target
                 let x = target.unwrap_or(Ent::of(Ty::Cdb, ep, env_i));
@@ -868,14 +1434,15 @@ async fn run_history(fx: &Fixtures, k: u64, n: u64, mode: Mode, len: usize, rng:
                 let skip = if rng.chance(1, 3) { rng.below(n) } else { 99 };
                 for p in cur.clone() {
                     if p != skip {
-                        let _ = sign!(p, cur.clone(), x, x);
+                        let _ = sign!(p, cur.clone(), x, x, dmq);
                     }
                 }
             } else {
-                let signed = match rng.below(6) {
+                let signed = match rng.below(7) {
                     0 => Ent::of(Ty::Msd, ep, 0),
                     1 => Ent::of(Ty::Cdb, ep, env_i + 1), // early: buffered
                     2 => Ent::of(Ty::Cdb, ep, env_i.saturating_sub(1).max(1)), // late
+                    3 => Ent::of(Ty::Cdb, ep, env_i), // the other type while the first is being signed
                     _ => target.map(|x| Ent { epoch: ep, ..x }).unwrap_or(Ent::of(Ty::Cdb, ep, env_i)),
                 };
                 let set: Vec<u64> = match rng.below(8) {
@@ -890,7 +1457,7 @@ async fn run_history(fx: &Fixtures, k: u64, n: u64, mode: Mode, len: usize, rng:
                     kinds.insert(if set != cur { "signature-foreign-set" } else if for_ != signed { "signature-mismatch" } else if signed.imm > env_i { "signature-early" } else { "signature" });
                     let repeat = if rng.chance(1, 6) { 2 } else { 1 };
                     for _ in 0..repeat {
-                        let _ = sign!(party, set.clone(), signed, for_);
+                        let _ = sign!(party, set.clone(), signed, for_, dmq);
                     }
                 }
             }
@@ -906,6 +1473,15 @@ async fn run_history(fx: &Fixtures, k: u64, n: u64, mode: Mode, len: usize, rng:
             if roll < 96 {
                 kinds.insert("restart");
                 step!(Ev::Restart);
+                if rng.chance(1, 3) {
+                    // everything the signers sent in this epoch is sent again after the restart
+                    step!(Ev::Tick);
+                    step!(Ev::Tick);
+                    let done: Vec<Ent> = snap.certs.iter().filter_map(|c| c.ent).filter(|x| x.epoch == env_e).collect();
+                    for x in done {
+                        round!(x, 0, rng.chance(1, 4));
+                    }
+                }
             } else {
                 step!(Ev::Tick);
             }
@@ -952,7 +1528,7 @@ async fn run_history(fx: &Fixtures, k: u64, n: u64, mode: Mode, len: usize, rng:
                     if let Some(x) = target {
                         let mut union: BTreeSet<u64> = BTreeSet::new();
                         for p in cur.clone() {
-                            if let Some(ix) = sign!(p, cur.clone(), x, x) {
+                            if let Some(ix) = sign!(p, cur.clone(), x, x, false) {
                                 union.extend(ix);
                             }
                         }
@@ -966,8 +1542,10 @@ async fn run_history(fx: &Fixtures, k: u64, n: u64, mode: Mode, len: usize, rng:
         }
         let certified = snap.certs.iter().any(|c| c.ent == Some(goal));
         if !certified && excused.is_none() {
-            let cur = w.registered(env_e - 1).await;
-            let nxt = w.registered(env_e).await;
+            // judged from the registrations the harness saw accepted, not from the store (which a
+            // pruning task may have emptied)
+            let cur = w.own_set(env_e - 1);
+            let nxt = w.own_set(env_e);
             if snap.label == "idle" && (cur.is_empty() || nxt.is_empty()) {
                 // no party registered for this or the next epoch: the epoch service cannot start
             } else {
@@ -1014,40 +1592,84 @@ pub fn main_with(mode: Mode) {
     let work = PathBuf::from(std::env::var("VERIF_WORK").unwrap_or_else(|_| ".".into()));
     let mut rng = Rng::new(args.seed ^ if mode == Mode::C15 { 0xC15 } else { 0xC14 });
     let mut sink = Sink::new(&args);
-    let histories = match (mode, args.thorough) {
-        (Mode::C14, false) => 36,
-        (Mode::C14, true) => 400,
-        (Mode::C15, false) => 30,
-        (Mode::C15, true) => 320,
+    // directed scenarios first (each several times in the thorough tier), then purely random histories
+    let c14_directed = [
+        Scn::RestartResend,
+        Scn::EpochChangeSigning,
+        Scn::ExpiryRace,
+        Scn::BufferedInterleave,
+        Scn::SignerSetChange,
+        Scn::ThreeCertsThenEpoch,
+        Scn::SkipEpochRestart,
+        Scn::RestartInSigning,
+        Scn::DmqGarbage,
+    ];
+    let c15_directed = [
+        Scn::CutAt(Cut::CertInserted),
+        Scn::CutAt(Cut::OmCertified),
+        Scn::CutAt(Cut::ArtifactComputed),
+        Scn::CutAt(Cut::EntityStored),
+        Scn::CutAt(Cut::OmCreated),
+        Scn::CutAt(Cut::BufRegistered(0)),
+        Scn::CutAt(Cut::BufRegistered(1)),
+        Scn::CutAt(Cut::BufRemoved),
+        Scn::RestartResend,
+        Scn::EpochChangeSigning,
+        Scn::BufferedInterleave,
+        Scn::RestartInSigning,
+    ];
+    let (directed, reps, random): (&[Scn], usize, usize) = match (mode, args.thorough) {
+        (Mode::C14, false) => (&c14_directed, 1, 25),
+        (Mode::C14, true) => (&c14_directed, 10, 310),
+        (Mode::C15, false) => (&c15_directed, 1, 16),
+        (Mode::C15, true) => (&c15_directed, 8, 224),
     };
+    let mut plan: Vec<(usize, Scn)> = vec![];
+    for rep in 0..reps {
+        plan.extend(directed.iter().map(|s| (rep, *s)));
+    }
+    plan.extend(std::iter::repeat((0, Scn::Random)).take(random));
     let rt = tokio::runtime::Builder::new_multi_thread().worker_threads(4).enable_all().build().unwrap();
     let ks = [4u64, 7, 10];
     let mut fixtures: HashMap<u64, Fixtures> = HashMap::new();
-    for h in 0..histories {
+    for (h, (rep, scn)) in plan.into_iter().enumerate() {
         let mut hr = rng.fork();
         let Some(id) = sink.wants() else { continue };
-        let k = *hr.pick(&ks);
-        let n = hr.range(3, MAX_PARTIES as u64);
+        let k = if scn == Scn::Random { *hr.pick(&ks) } else { *hr.pick(&[4u64, 4, 7]) };
+        let n = if scn == Scn::Random { hr.range(3, MAX_PARTIES as u64) } else { hr.range(4, MAX_PARTIES as u64) };
         let len = hr.range(18, 40) as usize;
+        // store retention limit of the configuration (pruning tasks of the epoch initialisation)
+        // (directed scenarios: the smallest limit in the first repetition, then a fixed rotation)
+        let drawn: Option<usize> = match hr.below(6) {
+            0 => Some(1),
+            1 => Some(2),
+            2 => Some(3),
+            3 => Some(5),
+            _ => None,
+        };
+        let retention = if scn == Scn::Random { drawn } else { [Some(1), None, Some(2), Some(3), Some(1), Some(5), None, Some(4)][rep % 8] };
         let fx = fixtures.entry(k).or_insert_with(|| Fixtures::new(k));
         let dir = work.join(format!("h{}", h % 4));
-        let hist = rt.block_on(run_history(fx, k, n, mode, len, &mut hr, dir));
+        let hist = rt.block_on(run_history(fx, k, n, mode, scn, retention, len, &mut hr, dir));
         let all: Vec<u64> = (0..n).collect();
         let evs: Vec<String> = hist.events.iter().map(|e| e.coq()).collect();
         let model = format!("C14.Model.run {} {} [{}]", coq::n(k), coq::list_n(&all), evs.join("; "));
-        let kind = if hist.kinds.contains("crash-taken") {
-            "history-with-crash"
+        let kind: String = if scn != Scn::Random {
+            format!("directed-{}", scn.name())
+        } else if hist.kinds.contains("crash-taken") {
+            "history-with-crash".into()
         } else if hist.kinds.contains("skip-epoch") {
-            "history-with-epoch-skip"
+            "history-with-epoch-skip".into()
         } else if hist.kinds.contains("restart") {
-            "history-with-restart"
+            "history-with-restart".into()
         } else {
-            "history"
+            "history".into()
         };
         sink.push(Case {
             id,
-            kind: kind.into(),
-            desc: serde_json::json!({"k": k, "m": M, "phi_f": PHI_F, "parties": n,
+            kind,
+            desc: serde_json::json!({"k": k, "m": M, "phi_f": PHI_F, "parties": n, "scenario": scn.name(),
+                "store_retention_limit": retention,
                 "events": hist.events.iter().map(|e| e.json()).collect::<Vec<_>>(),
                 "event_kinds": hist.kinds.iter().collect::<Vec<_>>(), "certificates_at_end": hist.n_certs}),
             model: Some(model),
